@@ -303,4 +303,13 @@ MUTANTS = {
         "edits": [("Lib/fontTools/ttLib/tables/_g_l_y_f.py", "            scale = str2fl(attrs[\"scale\"], 14)\n            self.transform = [[scale, 0], [0, scale]]", "            scale = str2fl(attrs[\"scale\"], 14)\n            if scale != 1:\n                self.transform = [[scale, 0], [0, scale]]")],
         "check": ["C03", "--tier", "quick"],
     },
+    # ---- added with the seventh round's ingredients
+    "c04_vhea_extent_ignores_height": {
+        "edits": [("Lib/fontTools/ttLib/tables/_v_h_e_a.py", "                extent = tsb + boundsHeight", "                extent = tsb")],
+        "check": ["C04", "--tier", "quick", "--only", "save"],
+    },
+    "c01_vorg_compile_drops_default_records": {
+        "edits": [("Lib/fontTools/ttLib/tables/V_O_R_G_.py", "        vOriginTable = list(zip(gids, vorgs))\n        self.numVertOriginYMetrics = len(vorgs)", "        vOriginTable = [r_ for r_ in zip(gids, vorgs) if r_[1] != self.defaultVertOriginY]\n        self.numVertOriginYMetrics = len(vOriginTable)")],
+        "check": ["C01", "--tier", "quick"],
+    },
 }
